@@ -81,7 +81,7 @@ func c10Alias(key string, idx ...int) string {
 	case 4:
 		return "y.io"
 	}
-	return "Cb"
+	return "x.io:6443" // a server name spelled with a port: a name of its own in the table (requests never carry it)
 }
 
 
@@ -91,12 +91,12 @@ func c10Alias(key string, idx ...int) string {
 // reference is an ownership table maintained from the specification (an event that would capture a name of the other
 // cluster is refused and changes nothing that belongs to the other cluster; an accepted version makes the cluster own
 // exactly its name and its current server names; a deleted cluster's names stop resolving). Resolution ignores case.
-// verif:bounds 2 clusters (ca, cb), k = 1..3 events; server names: 0..2 per version (quick: 0..1 in three-event histories) from {ca, CB, Cb, x.io, X.io, y.io}
+// verif:bounds 2 clusters (ca, cb), k = 1..3 events; server names: 0..2 per version (quick: 0..1 in three-event histories) from {ca, CB, x.io, X.io, y.io, x.io:6443}
 func HarnessC10NameOwnership() {
 	lister := &c10Lister{objs: map[string]*proxyv1alpha1.UpstreamCluster{}}
 	m := &UpstreamClusterController{lister: lister, Manager: clusters.NewManager()}
 	c10Clusters := [2]string{"ca", "cb"}
-	c10Universe := [4]string{"ca", "cb", "x.io", "y.io"}
+	c10Universe := [5]string{"ca", "cb", "x.io", "y.io", "x.io:6443"}
 	owner := map[string]string{} // lower-case name -> cluster that owns it
 	k := nondetRange("events", 1, vbound(3, 3))
 	maxAliases := 2
